@@ -1,11 +1,14 @@
 """Property id -> check function."""
 import checks_stream
+import checks_noise
 
 CHECKS = {
     "C01": checks_stream.c01,
     "C02": checks_stream.c02,
     "C03": checks_stream.c03,
     "C04": checks_stream.c04,
+    "C05": checks_noise.c05,
+    "C06": checks_noise.c06,
     "C10": checks_stream.c10,
     "C11": checks_stream.c11,
 }
